@@ -105,6 +105,7 @@ theorem get_refines (c : LtCfg → Source → Bool) (s : Store) (n : Name) :
         simp only []
         cases l n with
         | err => simp
+        | panics => simp
         | missing => simp
         | src src =>
           simp only []
@@ -226,6 +227,7 @@ theorem spec_step_refines (c : LtCfg → Source → Bool) (sp : Spec) (op : Op) 
           simp only []
           cases l n with
           | err => simp
+          | panics => simp
           | missing => simp
           | src src =>
             simp only []
@@ -363,6 +365,7 @@ theorem flat_step_keeps (c : LtCfg → Source → Bool) (f : Flat) (op : Op) (n 
         simp only []
         cases l m with
         | err => simpa using h
+        | panics => simpa using h
         | missing => simpa using h
         | src s2 =>
           simp only []
@@ -401,6 +404,7 @@ theorem flat_get_found (c : LtCfg → Source → Bool) (f : Flat) (n : Name) (sr
       simp only [hl] at h ⊢
       cases hn : l n with
       | err => simp [hn] at h
+      | panics => simp [hn] at h
       | missing => simp [hn] at h
       | src s2 =>
         simp only [hn] at h ⊢
@@ -770,6 +774,7 @@ theorem get_failure_not_cached (c : LtCfg → Source → Bool) (s : Store) (n : 
         simp only []
         cases hn : l n with
         | err => simp
+        | panics => simp
         | missing => simp
         | src src =>
           simp only []
@@ -840,6 +845,7 @@ theorem Store.get_inv (c : LtCfg → Source → Bool) (s : Store) (n : Name) (h 
         simp only []
         cases l n with
         | err => exact h
+        | panics => exact h
         | missing => exact h
         | src src =>
           simp only []
@@ -1010,5 +1016,103 @@ theorem World.run_local (c : LtCfg → Source → Bool) (ops : List EOp) :
     have hlen : e < (w.step c (op.at e)).1.stores.length := by rw [World.step_at_length]; exact he
     obtain ⟨i1, i2⟩ := ih _ (World.step_WF c w _ hw) e hlen _ h1
     exact ⟨i1, by simp only [World.resultsAt, EnvSpec.results]; rw [i2, h2]⟩
+
+
+
+/-! ### the serialisation flag is restored on every way out of a conversion -/
+
+/-- invariant relating the flag and the live guards to the flag value `f₀` outside all conversions -/
+def FlagInv (f₀ : Bool) (t : ThreadState) : Prop :=
+  (t.guards = [] ∧ t.serializing = f₀) ∨
+  (∃ k, t.guards = List.replicate k false ++ [!f₀] ∧ t.serializing = true)
+
+theorem FlagInv.drop (f₀ : Bool) (t : ThreadState) (u : Bool) (h : FlagInv f₀ t) :
+    FlagInv f₀ (dropGuard true u t) := by
+  rcases h with ⟨hg, hs⟩ | ⟨k, hg, hs⟩
+  · left; simp [dropGuard, hg, hs]
+  · cases k with
+    | zero =>
+      left
+      simp only [List.replicate, List.nil_append] at hg
+      cases f₀ <;> simp [dropGuard, hg, hs]
+    | succ k =>
+      right
+      refine ⟨k, ?_⟩
+      simp [dropGuard, hg, hs, List.replicate_succ]
+
+theorem FlagInv.step (f₀ : Bool) (t : ThreadState) (e : ConvEv) (h : FlagInv f₀ t) :
+    FlagInv f₀ (t.step e) := by
+  cases e with
+  | leave => exact FlagInv.drop f₀ t false h
+  | enter =>
+    right
+    rcases h with ⟨hg, hs⟩ | ⟨k, hg, hs⟩
+    · exact ⟨0, by simp [ThreadState.step, hg, hs]⟩
+    · exact ⟨k + 1, by simp [ThreadState.step, hg, hs, List.replicate_succ]⟩
+  | park v =>
+    rcases h with ⟨hg, hs'⟩ | ⟨k, hg, hs'⟩
+    · left; simp only [ThreadState.step]; split <;> exact ⟨hg, hs'⟩
+    · right; simp only [ThreadState.step]; split <;> exact ⟨k, hg, hs'⟩
+  | take =>
+    rcases h with ⟨hg, hs⟩ | ⟨k, hg, hs⟩
+    · left; exact ⟨hg, hs⟩
+    · right; exact ⟨k, hg, hs⟩
+
+theorem FlagInv.run (f₀ : Bool) (es : List ConvEv) : ∀ t, FlagInv f₀ t → FlagInv f₀ (t.run es) := by
+  induction es with
+  | nil => intro t h; exact h
+  | cons e es ih => intro t h; exact ih _ (FlagInv.step f₀ t e h)
+
+theorem dropGuard_length (r u : Bool) (t : ThreadState) :
+    (dropGuard r u t).guards.length = t.guards.length - 1 := by
+  unfold dropGuard
+  split <;> simp_all
+
+theorem unwind_all (f₀ : Bool) : ∀ (n : Nat) (t : ThreadState), FlagInv f₀ t → t.guards.length = n →
+    (unwind true t n).guards = [] ∧ (unwind true t n).serializing = f₀ := by
+  intro n
+  induction n with
+  | zero =>
+    intro t h hl
+    have hg : t.guards = [] := List.length_eq_zero_iff.mp hl
+    rcases h with ⟨_, hs⟩ | ⟨k, hg', _⟩
+    · exact ⟨hg, hs⟩
+    · rw [hg] at hg'; simp at hg'
+  | succ n ih =>
+    intro t h hl
+    simp only [unwind]
+    exact ih _ (FlagInv.drop f₀ t true h) (by rw [dropGuard_length]; omega)
+
+/-! ### value handles are always fresh -/
+
+def HandlesInv (t : ThreadState) : Prop := ∀ p ∈ t.handles, p.1 ≤ t.lastHandle
+
+theorem HandlesInv.step (t : ThreadState) (e : ConvEv) (h : HandlesInv t) : HandlesInv (t.step e) := by
+  cases e with
+  | enter => exact h
+  | leave =>
+    intro p hp
+    have : (dropGuard true false t).handles = t.handles ∧ (dropGuard true false t).lastHandle = t.lastHandle := by
+      unfold dropGuard; cases t.guards <;> simp
+    simp only [ThreadState.step, this.1, this.2] at hp ⊢
+    exact h p hp
+  | park v =>
+    simp only [ThreadState.step]
+    by_cases hs : t.serializing = true
+    · simp only [hs, if_true]
+      intro p hp
+      simp only [List.mem_cons] at hp
+      rcases hp with rfl | hp
+      · simp
+      · have := h p hp; simp only; omega
+    · simp only [hs]; exact h
+  | take =>
+    intro p hp
+    exact h p (List.mem_of_mem_drop hp)
+
+theorem HandlesInv.run (es : List ConvEv) : ∀ t, HandlesInv t → HandlesInv (t.run es) := by
+  induction es with
+  | nil => intro t h; exact h
+  | cons e es ih => intro t h; exact ih _ (HandlesInv.step t e h)
 
 end MJ.Store
